@@ -1,0 +1,31 @@
+//go:build verif && !test
+
+package os
+
+import "github.com/glebziz/fs_db/internal/verifhook"
+
+// Write is the content file write with the verification fault and crash hooks in front of it.
+func (f File) Write(p []byte) (n int, err error) {
+	verifhook.Mut("write", f.File.Name())
+
+	n, err, handled := verifhook.WriteFault(f.File.Name(), p)
+	if handled {
+		if n > 0 {
+			_, wErr := f.File.Write(p[:n])
+			if wErr != nil {
+				return 0, wErr
+			}
+		}
+
+		return n, err
+	}
+
+	return f.File.Write(p)
+}
+
+// Close is the content file close with the crash hook in front of it.
+func (f File) Close() error {
+	verifhook.Mut("close", f.File.Name())
+
+	return f.File.Close()
+}
